@@ -351,3 +351,9 @@ REWRITES = [
     Rewrite("short-check-ne", RX, "        if received < self.xfersize:\n            self._msg()", "        if received != self.xfersize:\n            self._msg()", desc="!= instead of <"),
     Rewrite("tmp-inline", RX, "        tmp_destname = self.abs_destname + \".tmp\"\n        return open(tmp_destname, \"wb\")", "        return open(self.abs_destname + \".tmp\", \"wb\")", desc="local inlined"),
 ]
+
+MUTANTS.append(Mutant("timing-exit-returns-elapsed", "src/wormhole/timing.py", "    def __exit__(self, exc_type, exc_value, exc_tb):\n        self.finish()", "    def __exit__(self, exc_type, exc_value, exc_tb):\n        return self.finish()", "C04.R8",
+                      "two cooperating sites: finish() returns the elapsed time, __exit__ returns finish(): exceptions inside timed blocks vanish",
+                      also=(("src/wormhole/timing.py", "        self.detail(**details)\n\n    def __enter__", "        self.detail(**details)\n        return round(self._stop - self._start, 2)\n\n    def __enter__"),)))
+MUTANTS.append(Mutant("walk-drops-empty-dirs", TX, "walk(what, preserve_empty=True, followlinks=True)", "walk(what, preserve_empty=False, followlinks=True)", "C04.R7"))
+REWRITES.append(Rewrite("timing-exit-explicit-false", "src/wormhole/timing.py", "    def __exit__(self, exc_type, exc_value, exc_tb):\n        self.finish()", "    def __exit__(self, exc_type, exc_value, exc_tb):\n        self.finish()\n        return False", desc="explicit no-suppress"))
